@@ -264,6 +264,12 @@ class HardcodeSwitch(JMCFunction):
     def call(self) -> str:
         start_at = int(self.args["begin_at"])
         count = int(self.args["count"])
+        if count < start_at:
+            raise JMCValueError(
+                f"count ({count}) cannot be less than begin_at ({start_at}): the switch would have no case",
+                self.raw_args["count"].token,
+                self.tokenizer,
+            )
         func_contents: list[list[str]] = []
         scoreboard_player = find_scoreboard_player_type(
             self.raw_args["switch"].token, self.tokenizer
